@@ -1,7 +1,174 @@
-//! Generators of the concurrency, liveness and tool profiles.
+//! Generators of the concurrency (C08), liveness (C13) and tools (C16) profiles.
 
+use crate::gen::*;
 use crate::plan::*;
+use crate::rng::Rng;
+
+/// N concurrent clients + a maintenance client over few keys, rotation every few records,
+/// then a second concurrent phase on the reopened (append-mode) blobs, then a sequential check.
+pub fn gen_conc(property: &str, profile: &str, seed: u64) -> Plan {
+    let (mut plan, mut sw) = base_plan(property, profile, seed);
+    let big = profile.contains("big");
+    let burst = profile.contains("burst");
+    plan.store.allow_duplicates = true;
+    plan.store.max_data_in_blob = *sw.rng.pick(&[2u64, 3, 4, 5, 8, 16]);
+    plan.store.max_blob_size = 1_000_000;
+    plan.store.deferred_min_ms = *sw.rng.pick(&[100u64, 1_000, 60_000]);
+    plan.store.deferred_max_ms = plan.store.deferred_min_ms * 3;
+    plan.store.ignore_corrupted = false;
+    plan.sched = swarm_sched(&mut sw.rng, true);
+    plan.sched.buggify_mask = if sw.rng.chance(3, 4) { sw.rng.below(256) as u32 } else { 0 };
+    plan.sched.channel_cap = *sw.rng.pick(&[1usize, 4, 64, 1024, 1024]);
+    plan.n_keys = sw.rng.range(1, 6) as u8;
+    sw.n_keys = plan.n_keys;
+    plan.check_each_step = true; // only used by the sequential tail session
+    let n_clients = if burst {
+        plan.sched.channel_cap = *sw.rng.pick(&[1usize, 4, 16]);
+        plan.sched.channel_cap + 3 + sw.rng.below(6) as usize
+    } else if big {
+        // many clients, larger blobs (the number of blobs drives the cost of every read and delete)
+        plan.store.max_data_in_blob = *sw.rng.pick(&[8u64, 16, 32]);
+        sw.rng.range(100, 400) as usize
+    } else {
+        sw.rng.range(2, 24) as usize
+    };
+    let mut sessions = Vec::new();
+    let phases = if big || burst { 1 } else { sw.rng.range(1, 2) };
+    for phase in 0..phases {
+        let mut clients: Vec<Vec<Op>> = Vec::new();
+        for _ in 0..n_clients {
+            let n_ops = if big || burst { sw.rng.range(1, 3) } else { sw.rng.range(2, 14) } as usize;
+            let mut ops = Vec::new();
+            for _ in 0..n_ops {
+                let uid = sw.uid();
+                let think_ms = if burst { 0 } else { *sw.rng.pick(&[0u64, 0, 0, 1, 2, 5, 50, 250]) };
+                let key = sw.key();
+                let kind = match sw.rng.below(100) {
+                    0..=44 => OpKind::Write { key, ts: sw.ts(), len: sw.rng.range(16, 48) as u32, meta: None },
+                    45..=64 => OpKind::Read { key },
+                    65..=74 => OpKind::Contains { key },
+                    75..=89 => OpKind::Delete { key, ts: sw.ts(), meta: None, only_if_presented: sw.rng.chance(1, 2) },
+                    90..=94 => OpKind::ReadAll { key },
+                    _ => OpKind::ReadAllDel { key },
+                };
+                let kind = if burst { OpKind::Write { key, ts: sw.ts(), len: 24, meta: None } } else { kind };
+                ops.push(Op { uid, think_ms, kind });
+            }
+            clients.push(ops);
+        }
+        if !burst {
+            // maintenance client
+            let mut ops = Vec::new();
+            for _ in 0..sw.rng.range(1, 10) {
+                let uid = sw.uid();
+                let think_ms = *sw.rng.pick(&[0u64, 1, 5, 100, 300]);
+                let kind = match sw.rng.below(10) {
+                    0 | 1 => OpKind::TryClose,
+                    2 | 3 => OpKind::TryRestore,
+                    4 => OpKind::TryCreate,
+                    5 => OpKind::Fsync,
+                    6 => OpKind::FreeExcess,
+                    7 => OpKind::CloseBg,
+                    _ => OpKind::Idle { ms: *sw.rng.pick(&[1u64, 250, 1_000]) },
+                };
+                ops.push(Op { uid, think_ms, kind });
+            }
+            clients.push(ops);
+        }
+        let mut s = SessionPlan { lazy_init: phase == 0 && sw.rng.chance(1, 6), pre: vec![], clients, end: SessionEnd::Close, validate_data: None, ignore_corrupted: None };
+        if burst {
+            // the active blob is brought to its limit and aged past the debounce by a prologue client
+            let mut pro = Vec::new();
+            for _ in 0..plan.store.max_data_in_blob {
+                let uid = sw.uid();
+                pro.push(Op { uid, think_ms: 0, kind: OpKind::Write { key: 0, ts: sw.ts(), len: 24, meta: None } });
+            }
+            for c in s.clients.iter_mut() {
+                if let Some(first) = c.first_mut() {
+                    first.think_ms = 400;
+                }
+            }
+            s.clients.insert(0, pro);
+        }
+        sessions.push(s);
+    }
+    // sequential tail: restart, full comparison, a few operations
+    let mut ops = Vec::new();
+    for _ in 0..sw.rng.range(1, 4) {
+        ops.push(gen_op(&mut sw, &MIX_DATA_NO_RESTART, plan.store.key_len));
+    }
+    sessions.push(SessionPlan::sequential(ops));
+    plan.sessions = sessions;
+    plan
+}
+
+pub const MIX_DATA_NO_RESTART: Mix = Mix { write: 55, delete: 25, idle: 5, lifecycle: 0, lifecycle_bg: 0, force: 0, free: 0, offload: 0, fsync: 0, restart: 0, clock: 0 };
+
+/// Arbitrary sequences of public calls in every active-blob state, then overflow, idle, close (C13).
+pub fn gen_live(property: &str, profile: &str, seed: u64) -> Plan {
+    let (mut plan, mut sw) = base_plan(property, &format!("{}+nonapplicable_bg", profile), seed);
+    plan.store.max_data_in_blob = *sw.rng.pick(&[2u64, 3, 4, 6, 10]);
+    plan.store.max_blob_size = *sw.rng.pick(&[400u64, 1_000_000, 1_000_000]);
+    let (dmin, dmax) = *sw.rng.pick(&[(60_000u64, 180_000u64), (1_000, 3_000), (100, 300), (5_000, 5_000)]);
+    plan.store.deferred_min_ms = dmin;
+    plan.store.deferred_max_ms = dmax;
+    // liveness is only promised once faults have stopped: no stalls
+    if let Latency::HeavyTail { .. } = plan.sched.latency {
+        plan.sched.latency = Latency::Uniform(2);
+    }
+    let mix = Mix { write: 30, delete: 14, idle: 10, lifecycle: 8, lifecycle_bg: 16, force: 8, free: 3, offload: 0, fsync: 3, restart: 0, clock: 4 };
+    let n = sw.rng.range(4, 32) as usize;
+    let mut ops = Vec::new();
+    for _ in 0..n {
+        let mut op = gen_op(&mut sw, &mix, plan.store.key_len);
+        // idle periods shorter than the deferral so that deferred dumps overlap with later requests
+        if let OpKind::Idle { ms } = &mut op.kind {
+            *ms = *sw.rng.pick(&[1u64, 50, 250, dmin / 2 + 1, dmin + 1, dmax + 1_000]);
+        }
+        ops.push(op);
+    }
+    let uid = sw.uid();
+    ops.push(Op { uid, think_ms: 0, kind: OpKind::OverflowProbe { max_writes: 60, gap_ms: 300 } });
+    let uid = sw.uid();
+    ops.push(Op { uid, think_ms: 0, kind: OpKind::Idle { ms: dmax + 1_500 } });
+    let uid = sw.uid();
+    ops.push(Op { uid, think_ms: 0, kind: OpKind::CheckDumped });
+    plan.sessions = vec![SessionPlan::sequential(ops)];
+    plan.sessions[0].lazy_init = sw.rng.chance(1, 4);
+    plan
+}
+
+/// Blobs and indexes produced by a history, then handed to the offline tools (C16).
+pub fn gen_tools(property: &str, profile: &str, seed: u64) -> Plan {
+    let (mut plan, mut sw) = base_plan(property, profile, seed);
+    plan.store.key_len = 8; // read_index supports key sizes 4,8,16,32,64,128 only
+    plan.store.max_data_in_blob = *sw.rng.pick(&[3u64, 5, 8, 20]);
+    plan.store.deferred_min_ms = 100;
+    plan.store.deferred_max_ms = 300;
+    sw.big_values = sw.rng.chance(1, 5);
+    let mix = Mix { write: 60, delete: 20, idle: 8, lifecycle: 0, lifecycle_bg: 0, force: 0, free: 0, offload: 0, fsync: 0, restart: 2, clock: 0 };
+    let n = sw.rng.range(3, 24) as usize;
+    let mut ops = Vec::new();
+    for _ in 0..n {
+        ops.push(gen_op(&mut sw, &mix, plan.store.key_len));
+    }
+    plan.sessions = vec![SessionPlan::sequential(ops)];
+    plan
+}
+
+pub fn tools_rng(plan: &Plan) -> Rng {
+    Rng::new(plan.seed ^ 0x7001)
+}
 
 pub fn gen_plan3(property: &str, profile: &str, seed: u64) -> Plan {
-    panic!("unknown profile {} for {} seed {}", profile, property, seed)
+    let base = profile.split('+').next().unwrap_or(profile);
+    if base.starts_with("conc") {
+        gen_conc(property, profile, seed)
+    } else if base.starts_with("live") {
+        gen_live(property, profile, seed)
+    } else if base.starts_with("tools") {
+        gen_tools(property, profile, seed)
+    } else {
+        panic!("unknown profile {} for {} seed {}", profile, property, seed)
+    }
 }
